@@ -583,6 +583,45 @@ example : ((processIncremental ⟨cfg, 65535, false, fun _ => []⟩ [] [[rerunRu
     ((processIncremental ⟨cfg, 65535, false, fun _ => []⟩ [] [[rerunRule]]).results.map
     (fun kv => kv.2.map (·.src))) = [[1]] := by decide
 
+/-! ### rules are identities; names are a labelling -/
+
+/-- `accounting_name_independent`: give the rules of a rule set any other names — injectively or not, so that several
+distinct rules share one fully qualified name (a factory's closures, a redefinition, a reloaded module) — and every
+identity is accounted exactly as before: the same number of entries, skip entries, metadata merges and metadata keys,
+the same recorded exceptions.  Nothing in the accounting goes by name. -/
+theorem accounting_name_independent (env : Env) (hc : WFCfg env.cfg) (seed : List Comp) (rules : List Rule)
+    (h : Fresh seed rules) (f : Rule → Str) (id : Comp) :
+    tally (run env seed (rules.map (relabel f))) id = tally (run env seed rules) id := by
+  have h' := fresh_relabel seed f rules h
+  by_cases hin : id ∈ rules.map (·.id)
+  · obtain ⟨r, hr, rfl⟩ := List.mem_map.mp hin
+    have hmem : ∃ fr, (r, fr) ∈ finals env seed rules := by
+      have hm : r ∈ (finals env seed rules).map (·.1) := by rw [finals_map_fst]; exact hr
+      obtain ⟨x, hx, hxr⟩ := List.mem_map.mp hm
+      exact ⟨x.2, by rw [← hxr]; exact hx⟩
+    obtain ⟨fr, hfr⟩ := hmem
+    obtain ⟨f', h1, h2⟩ := finals_relabel env hc f rules seed r fr hfr
+    have e1 := outcome_exclusive env seed rules h r fr hfr
+    have e2 := outcome_exclusive env seed _ h' (relabel f r) f' h1
+    have hid : (relabel f r).id = r.id := rfl
+    rw [hid] at e2
+    rw [e1, e2, h2]
+  · rw [tally_run_absent env seed rules h id (by rw [finals_ids]; exact hin),
+      tally_run_absent env seed _ h' id (by rw [finals_ids, relabel_ids]; exact hin)]
+
+/-- in particular with ONE name for every rule, each rule still has its one outcome -/
+theorem shared_name_outcomes (env : Env) (hc : WFCfg env.cfg) (seed : List Comp) (rules : List Rule) (h : Fresh seed rules)
+    (name : Str) (r : Rule) (f : Final) (hmem : (r, f) ∈ finals env seed rules) :
+    tally (run env seed (rules.map (relabel (fun _ => name)))) r.id = f.tally := by
+  rw [accounting_name_independent env hc seed rules h]
+  exact outcome_exclusive env seed rules h r f hmem
+
+set_option maxRecDepth 100000 in
+/-- non-vacuity: two distinct rules under one name, a fail and a pass: both are listed, each once -/
+example : ((run ⟨cfg, 65535, false, fun _ => []⟩ [] ([rerunRule, islandRule].map (relabel (fun _ => "m.f.<locals>.report".toList)))).results.map
+    (fun kv => kv.2.map (fun e => (e.src, String.ofList e.component)))) =
+    [[(1, "m.f.<locals>.report")], [(2, "m.f.<locals>.report")]] := by decide
+
 /-! ### get_response -/
 
 /-- what `get_response()` puts under every heading, for every reachable evaluator state: the analysis block; the
